@@ -16,7 +16,7 @@ def _fresh(name, sort):
 
 def skolemize(goal, sks):
     """Replace positive universal quantifiers of the goal by fresh constants (collected into sks)."""
-    if z3.is_quantifier(goal):
+    if z3.is_quantifier(goal) and not goal.is_lambda():
         if goal.is_forall():
             n = goal.num_vars()
             cs = [_fresh(goal.var_name(i), goal.var_sort(i)) for i in range(n)]
@@ -45,6 +45,9 @@ def has_quant(e, cache=None):
             continue
         seen.add(i)
         if z3.is_quantifier(x):
+            if x.is_lambda():
+                stack.append(x.body())  # bulk-copy lambdas are array terms, not logical quantifiers
+                continue
             return True
         if z3.is_app(x):
             stack.extend(x.children())
@@ -57,6 +60,8 @@ def ground(h, terms_by_sort, cap=96):
     if not has_quant(h):
         return h
     if z3.is_quantifier(h):
+        if h.is_lambda():
+            return h
         if not h.is_forall():
             return z3.BoolVal(True)
         n = h.num_vars()
@@ -86,6 +91,103 @@ def ground(h, terms_by_sort, cap=96):
     return z3.BoolVal(True)
 
 
+def index_terms(formulas, limit=400):
+    """Ground 64-bit index terms t occurring as select(_, t) in the given formulas (outside quantifiers)."""
+    out, seen, ids = [], set(), set()
+    stack = list(formulas)
+    while stack and len(out) < limit:
+        x = stack.pop()
+        i = x.get_id()
+        if i in seen:
+            continue
+        seen.add(i)
+        if z3.is_quantifier(x):
+            if x.is_lambda():
+                pass
+            continue
+        if z3.is_app(x):
+            if x.decl().kind() == z3.Z3_OP_SELECT and x.num_args() == 2:
+                t = x.arg(1)
+                if z3.is_bv(t) and t.get_id() not in ids:
+                    ids.add(t.get_id())
+                    out.append(t)
+            stack.extend(x.children())
+    return out
+
+
+def _has_var(e, cache):
+    i = e.get_id()
+    if i in cache:
+        return cache[i]
+    r = False
+    if z3.is_var(e):
+        r = True
+    elif z3.is_app(e):
+        r = any(_has_var(c, cache) for c in e.children())
+    elif z3.is_quantifier(e):
+        r = True
+    cache[i] = r
+    return r
+
+
+def select_offsets(body):
+    """For a one-variable quantifier body: the ground offsets c of index patterns `c + Var(0)` (or Var(0)) under select."""
+    offs, seen, cache = [], set(), {}
+    stack = [body]
+    while stack:
+        x = stack.pop()
+        i = x.get_id()
+        if i in seen:
+            continue
+        seen.add(i)
+        if z3.is_quantifier(x):
+            continue
+        if z3.is_app(x):
+            if x.decl().kind() == z3.Z3_OP_SELECT and x.num_args() == 2:
+                t = x.arg(1)
+                if z3.is_var(t):
+                    offs.append(None)
+                elif z3.is_app(t) and t.decl().kind() == z3.Z3_OP_BADD:
+                    vs = [c for c in t.children() if z3.is_var(c)]
+                    rest = [c for c in t.children() if not z3.is_var(c)]
+                    if len(vs) == 1 and not any(_has_var(c, cache) for c in rest):
+                        c0 = rest[0]
+                        for r in rest[1:]:
+                            c0 = c0 + r
+                        offs.append(c0)
+            stack.extend(x.children())
+    # dedupe
+    out, ids = [], set()
+    for o in offs:
+        k = None if o is None else o.get_id()
+        if k not in ids:
+            ids.add(k)
+            out.append(o)
+    return out
+
+
+def ematch_instances(h, idx_terms, cap=24):
+    """Extra instances of a one-variable universal hypothesis: x := t - c for every ground select index t."""
+    if not (z3.is_quantifier(h) and h.is_forall() and h.num_vars() == 1 and z3.is_bv_sort(h.var_sort(0))):
+        return []
+    w = h.var_sort(0).size()
+    offs = select_offsets(h.body())
+    out = []
+    seen = set()
+    for t in idx_terms:
+        if t.sort().size() != w:
+            continue
+        for c in offs:
+            x = t if c is None else z3.simplify(t - c)
+            if x.get_id() in seen:
+                continue
+            seen.add(x.get_id())
+            out.append(x)
+            if len(out) >= cap:
+                return out
+    return out
+
+
 def prepare(hyps, pc, goal, extra_terms=()):
     """Returns (qf_assertions or None, full_assertions). Each is a list whose conjunction must be unsat."""
     sks = []
@@ -102,8 +204,47 @@ def prepare(hyps, pc, goal, extra_terms=()):
         if s.startswith("(_ BitVec"):
             w = pool[0].sort().size()
             pool.append(z3.BitVecVal(0, w))
-    qf = [ground(h, by_sort) for h in hyps] + [ground(pc, by_sort)]
     if has_quant(g):
         return None, full
+    qf = [ground(h, by_sort) for h in hyps] + [ground(pc, by_sort)]
     qf.append(z3.Not(g))
+    # E-matching on array reads for one-variable universals (two rounds: instances expose new reads)
+    quants = []
+    for h in hyps:
+        collect_universals(h, z3.BoolVal(True), quants)
+    if quants:
+        done = {}
+        for _ in range(1):
+            its = index_terms([g, pc], limit=24)
+            added = False
+            for gi, (guard, q) in enumerate(quants):
+                for x in ematch_instances(q, its):
+                    key = (gi, x.get_id())
+                    if key in done:
+                        continue
+                    done[key] = True
+                    inst = z3.substitute_vars(q.body(), x)
+                    inst = ground(inst, by_sort)
+                    qf.append(inst if z3.is_true(guard) else z3.Implies(guard, inst))
+                    added = True
+            if not added:
+                break
     return qf, full
+
+
+def collect_universals(h, guard, out):
+    """(guard, forall) pairs for positive one-variable universals of hypothesis h (guards are quantifier-free)."""
+    if not has_quant(h):
+        return
+    if z3.is_quantifier(h):
+        if h.is_forall() and not h.is_lambda() and h.num_vars() == 1:
+            out.append((guard, h))
+        return
+    if z3.is_and(h):
+        for c in h.children():
+            collect_universals(c, guard, out)
+        return
+    if z3.is_implies(h) and not has_quant(h.arg(0)):
+        g2 = h.arg(0) if z3.is_true(guard) else z3.And(guard, h.arg(0))
+        collect_universals(h.arg(1), g2, out)
+        return
